@@ -271,7 +271,7 @@ def make_twins(g: Generated):
                 head_txt = head_txt[:mm.start()] + " ensures false,\n" + head_txt[mm.start():]
             else:
                 head_txt = head_txt.rstrip()
-                if re.search(r"\b(requires|recommends)\b", hm) and not head_txt.rstrip().endswith(","):
+                if re.search(r"\b(requires|recommends)\b", hm) and not mask(head_txt).rstrip().endswith(","):
                     # make sure the last requires clause is terminated (strip trailing comments first)
                     head_txt = head_txt + "\n,"
                 head_txt = head_txt + "\n ensures false,"
